@@ -172,4 +172,7 @@ def lindblad(
                 # Handle special observables if needed, or leave as 0/NaN
                 obs_results[i, t_idx] = 0.0
 
+    if not sim_params.sample_timesteps:
+        # only the value at the total time is reported (one column, as the TJM back-ends do)
+        return obs_results[:, -1:]
     return obs_results
